@@ -7,9 +7,15 @@ C11 driver: runs the model on the line protocol of `harness/src/bin/c11.rs`.
   key A B   -> `key impl=<b> spec=<b>`
   cfg legacy|fixed|code       choose the configuration used for `impl` (default: `codeCfg`, generated)
   reset
-  cm/cs/cl/cv/cb/ct <op> ..   collection registers (see `collLine`)
+  mk NAME set|map A..         (driver only) the ORIGINAL arguments of the `(hashset ..)` / `(hash ..)` that made NAME:
+                              -> `mk same=<b>`: the model constructor `mkSet`/`mkMap` yields the members the real object has
+  cm/cs/cl/cv/cb/ct <op> ..   collection registers (see `collOps`): every operation runs on the model P of the Rust
+                              primitives (`stepP`) AND on the mathematical model S (`stepS`); the answer printed is P's
+                              (canonical order for unordered results), followed by ` !refine` if S answers differently
+                              (never, by `Props.prim_refines`)
 -/
 import SteelVerif.C11.GenCfg
+import SteelVerif.C11.Prim
 namespace SteelVerif.C11
 
 structure DState where
@@ -18,12 +24,9 @@ structure DState where
   cfg : Cfg := codeCfg
   /-- the guards of the current graph (wf, nonan, keys, sig), computed once per graph -/
   guards : Option String := none
-  cm : Coll.M Int Int := []
-  cs : Coll.S Int := []
-  cl : List Int := []
-  cv : List Int := []
-  cb : List Int := []
-  ct : List Int := []
+  /-- the registers of the model P of the primitives, and of the mathematical model S -/
+  pst : St := {}
+  sst : St := {}
 
 def lookupName (s : DState) (n : String) : Option Nat := (s.names.find? (·.1 == n)).map (·.2)
 
@@ -75,6 +78,15 @@ def parseNode (s : DState) (kind : String) (args : List String) : Option Node :=
 
 def showB (b : Bool) : String := if b then "true" else "false"
 
+/-- how the harness names a value it finds inside a real hash map / hash set: containers by object identity, LEAVES
+    by kind and value (the first definition with that value; floats by bit pattern), every empty list as the first
+    empty list (all empty lists are one object) -/
+def canonId (g : Graph) (i : Nat) : Nat :=
+  match g.node i with
+  | .leaf l => (g.findIdx? fun n => n == Node.leaf l).getD i
+  | .list [] _ => (g.findIdx? fun n => match n with | .list [] _ => true | _ => false).getD i
+  | _ => i
+
 def showSeq (xs : List Int) : String := " ".intercalate ("seq" :: xs.map toString)
 
 def insertSorted (x : Int × Int) : List (Int × Int) → List (Int × Int)
@@ -87,92 +99,138 @@ def showMap (m : Coll.M Int Int) : String :=
 def showSet (s : Coll.S Int) : String :=
   " ".intercalate ("set" :: ((s.map fun k => (k, (0 : Int))).foldr insertSorted []).map fun e => toString e.1)
 
-def showRes (r : Res Int) : String := match r with | .ok v => s!"ok {v}" | .err => "err"
-
 def ints (xs : List String) : Option (List Int) := xs.mapM (·.toInt?)
 
-/-- update a sequence register with the result of an operation that returns a sequence -/
-def seqUpd (cur : List Int) (r : Res (List Int)) : List Int × String :=
-  match r with
-  | .ok v => (v, showSeq v)
-  | .err => (cur, "err")
+def splitPairs : List Int → Option (List Int × List Int)
+  | [] => some ([], [])
+  | [k] => some ([k], [])          -- a key without a value: `hm_construct` raises
+  | k :: v :: rest => (splitPairs rest).map fun (ks, vs) => (k :: ks, v :: vs)
 
-def seqOp (cur : List Int) (op : String) (args : List Int) (kind : String) : Option (List Int × String) :=
-  match op, args with
-  | "new", xs => if kind == "b" then some (seqUpd cur (Coll.bMake xs)) else some (xs, showSeq xs)
-  | "len", [] => some (cur, toString cur.length)
-  | "ref", [i] => some (cur, showRes (Coll.lRef cur i))
-  | "first", [] => some (cur, showRes (Coll.lFirst cur))
-  | "last", [] => some (cur, showRes (Coll.lLast cur))
-  | "rest", [] => some (seqUpd cur (Coll.lRest cur))
-  | "take", [n] => some (seqUpd cur (Coll.lTake cur n))
-  | "tail", [n] => some (seqUpd cur (Coll.lTail cur n))
-  | "append", xs => some (cur ++ xs, showSeq (cur ++ xs))
-  | "appendl", xs => some (xs ++ cur, showSeq (xs ++ cur))
-  | "append2", [x, y] => some (cur ++ [x] ++ [y], showSeq (cur ++ [x] ++ [y]))
-  | "cons2", [x, y] => some (x :: y :: cur, showSeq (x :: y :: cur))
-  | "reverse", [] => some (cur.reverse, showSeq cur.reverse)
-  | "cons", [x] => some (x :: cur, showSeq (x :: cur))
-  | "set", [i, x] => some (seqUpd cur (if kind == "b" then Coll.bSet cur i x else Coll.vSet cur i x))
-  | "push", [x] => some (Coll.vPush cur x, showSeq (Coll.vPush cur x))
-  | "sub", [i, j] =>
-      some (seqUpd cur (match Coll.strSub (cur.map fun c => Char.ofNat c.toNat) i j with
-        | .ok cs => .ok (cs.map fun c => (c.toNat : Int))
-        | .err => .err))
-  | _, _ => none
+def toChars (xs : List Int) : List Char := xs.map fun c => Char.ofNat c.toNat
+
+/-- the ownership pattern of the two arguments of `hash-union` in the Steel program the check generates
+    (`_let` / `_n` / `_c` …) as the flags of `hm_union`'s four branches (left unique?, right unique?).
+    `Props.hash_union_left_biased`: the result does not depend on them. -/
+def ownFlags (own : String) (regLeft : Bool) : Bool × Bool :=
+  match own with
+  | "n" | "ln" | "nl" => (false, false)
+  | "c" => (true, true)
+  | _ => if regLeft then (false, true) else (true, false)
+
+/-- one protocol line = a short sequence of operations of `Op` (the answer of the last one is printed) -/
+def collOps (reg op own : String) (a : List Int) : Option (List Op) :=
+  match reg, op, a with
+  | "cm", "new", xs => (splitPairs xs).map fun (ks, vs) => [.mNew ks vs]
+  | "cm", "insert", [k, v] => some [.mInsert k v]
+  | "cm", "insert2", [k, v, k2, v2] => some [.mInsert k v, .mInsert k2 v2]
+  | "cm", "insrem", [k, v, k2] => some [.mInsert k v, .mRemove k2]
+  | "cm", "union", xs => (splitPairs xs).map fun (ks, vs) => let f := ownFlags own true; [.mUnion true f.1 f.2 ks vs]
+  | "cm", "unionr", xs => (splitPairs xs).map fun (ks, vs) => let f := ownFlags own false; [.mUnion false f.1 f.2 ks vs]
+  | "cm", "uniontt", n :: xs => do
+      let (lk, lv) ← splitPairs (xs.take n.toNat)
+      let (rk, rv) ← splitPairs (xs.drop n.toNat)
+      let f := ownFlags own true
+      pure [.mNew lk lv, .mUnion true f.1 f.2 rk rv]
+  | "cm", "remove", [k] => some [.mRemove k]
+  | "cm", "ref", [k] => some [.mRef k]
+  | "cm", "tryget", [k] => some [.mTryGet k]
+  | "cm", "contains", [k] => some [.mContains k]
+  | "cm", "len", [] => some [.mLen]
+  | "cm", "keys", [] => some [.mKeys]
+  | "cm", "values", [] => some [.mValues]
+  | "cm", "clear", [] => some [.mClear]
+  | "cs", "new", xs => some [.sNew xs]
+  | "cs", "insert", [k] => some [.sInsert k]
+  | "cs", "union", xs => some [.sUnion true xs]
+  | "cs", "unionr", xs => some [.sUnion false xs]
+  | "cs", "inter", xs => some [.sInter true xs]
+  | "cs", "interr", xs => some [.sInter false xs]
+  | "cs", "diff", xs => some [.sDiff true xs]
+  | "cs", "diffr", xs => some [.sDiff false xs]
+  | "cs", "contains", [k] => some [.sContains k]
+  | "cs", "len", [] => some [.sLen]
+  | "cs", "list", [] => some [.sToList]
+  | "cs", "clear", [] => some [.sClear]
+  | "cs", "subset", xs => some [.sSubset true xs]
+  | "cs", "subsetr", xs => some [.sSubset false xs]
+  | "cl", "new", xs => some [.lNew xs]
+  | "cl", "len", [] => some [.lLen]
+  | "cl", "ref", [i] => some [.lRef i]
+  | "cl", "first", [] => some [.lFirst]
+  | "cl", "last", [] => some [.lLast]
+  | "cl", "rest", [] => some [.lRest]
+  | "cl", "take", [n] => some [.lTake n]
+  | "cl", "tail", [n] => some [.lTail n]
+  | "cl", "drop", [n] => some [.lDrop n]
+  | "cl", "append", xs => some [.lAppend [] [xs]]
+  | "cl", "appendl", xs => some [.lAppend [xs] []]
+  | "cl", "append2", [x, y] => some [.lAppend [] [[x]], .lAppend [] [[y]]]
+  | "cl", "append3", n :: xs => some [.lAppend [xs.take n.toNat] [[], xs.drop n.toNat]]
+  | "cl", "cons2", [x, y] => some [.lCons y, .lCons x]
+  | "cl", "reverse", [] => some [.lReverse]
+  | "cl", "cons", [x] => some [.lCons x]
+  | "cl", "range", [lo, hi] => some [.lRange lo hi]
+  | "cl", "range1", [hi] => some [.lRange 0 hi]
+  | "cv", "new", xs => some [.vNew xs]
+  | "cv", "len", [] => some [.vLen]
+  | "cv", "ref", [i] => some [.vRef i]
+  | "cv", "set", [i, x] => some [.vSet i x]
+  | "cv", "push", [x] => some [.vPush x]
+  | "cv", "append", xs => some [.vAppend [] [xs]]
+  | "cv", "append3", n :: xs => some [.vAppend [xs.take n.toNat] [xs.drop n.toNat, []]]
+  | "cb", "new", xs => some [.bNew xs]
+  | "cb", "len", [] => some [.bLen]
+  | "cb", "ref", [i] => some [.bRef i]
+  | "cb", "set", [i, x] => some [.bSet i x]
+  | "cb", "push", [x] => some [.bPush x]
+  | "cb", "append", xs => some [.bAppend [] [xs]]
+  | "cb", "append3", n :: xs => some [.bAppend [xs.take n.toNat] [[], xs.drop n.toNat]]
+  | "ct", "new", xs => some [.tNew (toChars xs)]
+  | "ct", "len", [] => some [.tLen]
+  | "ct", "ref", [i] => some [.tRef i]
+  | "ct", "sub", [i, j] => some [.tSub i (some j)]
+  | "ct", "sub1", [i] => some [.tSub i none]
+  | "ct", "tolist", [] => some [.tToList none none]
+  | "ct", "tolist", [i] => some [.tToList (some i) none]
+  | "ct", "tolist", [i, j] => some [.tToList (some i) (some j)]
+  | "ct", "append", xs => some [.tAppend [] [toChars xs]]
+  | "ct", "append3", n :: xs => some [.tAppend [toChars (xs.take n.toNat)] [[], toChars (xs.drop n.toNat)]]
+  | _, _, _ => none
+
+/-- canonical text of an answer (what `checks/c11.py` derives from the real value); `op` tells how a number is read -/
+def showAns (op : Op) (a : Ans) : String :=
+  match a with
+  | .err => "err"
+  | .int i =>
+      (match op with
+       | .mRef _ | .lRef _ | .lFirst | .lLast | .vRef _ | .bRef _ => s!"ok {i}"
+       | .mTryGet _ => s!"some {i}"
+       | _ => toString i)
+  | .bool b => showB b
+  | .none => "none"
+  | .chr c => s!"ok {c.toNat}"
+  | .seq xs => showSeq xs
+  | .str cs => showSeq (cs.map fun c => (c.toNat : Int))
+  | .bag xs => showSet xs
+  | .map es => showMap es
 
 def collLine (s : DState) (reg op0 : String) (args : List String) : Option (DState × String) := do
   let a ← ints args
   -- `union_n`, `union_let`, … : the same operation with another ownership pattern of the arguments in the
-  -- Steel program (named and live / let-bound last use / temporary): the model does not depend on it
-  let op := (op0.splitOn "_").headD op0
-  match reg with
-  | "cm" =>
-      match op, a with
-      | "new", xs => do
-          let kvs ← pairUpInt xs
-          let m := Coll.mOfList kvs
-          pure ({ s with cm := m }, showMap m)
-      | "insert", [k, v] => let m := Coll.mInsert s.cm k v; pure ({ s with cm := m }, showMap m)
-      | "insert2", [k, v, k2, v2] =>
-          let m := Coll.mInsert (Coll.mInsert s.cm k v) k2 v2; pure ({ s with cm := m }, showMap m)
-      | "insrem", [k, v, k2] =>
-          let m := Coll.mRemove (Coll.mInsert s.cm k v) k2; pure ({ s with cm := m }, showMap m)
-      | "union", xs => do
-          let kvs ← pairUpInt xs
-          let m := Coll.mUnion s.cm (Coll.mOfList kvs); pure ({ s with cm := m }, showMap m)
-      | "unionr", xs => do
-          let kvs ← pairUpInt xs
-          let m := Coll.mUnion (Coll.mOfList kvs) s.cm; pure ({ s with cm := m }, showMap m)
-      | "uniontt", n :: xs => do
-          let l ← pairUpInt (xs.take n.toNat)
-          let r ← pairUpInt (xs.drop n.toNat)
-          let m := Coll.mUnion (Coll.mOfList l) (Coll.mOfList r); pure ({ s with cm := m }, showMap m)
-      | "remove", [k] => let m := Coll.mRemove s.cm k; pure ({ s with cm := m }, showMap m)
-      | "ref", [k] => pure (s, showRes (Coll.mRef s.cm k))
-      | "tryget", [k] => pure (s, match Coll.mTryGet s.cm k with | some v => s!"some {v}" | none => "none")
-      | "contains", [k] => pure (s, showB (Coll.mContains s.cm k))
-      | "len", [] => pure (s, toString (Coll.mLength s.cm))
-      | _, _ => none
-  | "cs" =>
-      match op, a with
-      | "new", xs => let t := Coll.sOfList xs; pure ({ s with cs := t }, showSet t)
-      | "insert", [k] => let t := Coll.sInsert s.cs k; pure ({ s with cs := t }, showSet t)
-      | "union", xs => let t := Coll.sUnion s.cs (Coll.sOfList xs); pure ({ s with cs := t }, showSet t)
-      | "unionr", xs => let t := Coll.sUnion (Coll.sOfList xs) s.cs; pure ({ s with cs := t }, showSet t)
-      | "inter", xs => let t := Coll.sInter s.cs (Coll.sOfList xs); pure ({ s with cs := t }, showSet t)
-      | "interr", xs => let t := Coll.sInter (Coll.sOfList xs) s.cs; pure ({ s with cs := t }, showSet t)
-      | "diff", xs => let t := Coll.sSymDiff s.cs (Coll.sOfList xs); pure ({ s with cs := t }, showSet t)
-      | "diffr", xs => let t := Coll.sSymDiff (Coll.sOfList xs) s.cs; pure ({ s with cs := t }, showSet t)
-      | "contains", [k] => pure (s, showB (Coll.sContains s.cs k))
-      | "len", [] => pure (s, toString (Coll.sLength s.cs))
-      | "subset", xs => pure (s, showB (Coll.sSubset s.cs (Coll.sOfList xs)))
-      | _, _ => none
-  | "cl" => do let (c, out) ← seqOp s.cl op a "l"; pure ({ s with cl := c }, out)
-  | "cv" => do let (c, out) ← seqOp s.cv op a "v"; pure ({ s with cv := c }, out)
-  | "cb" => do let (c, out) ← seqOp s.cb op a "b"; pure ({ s with cb := c }, out)
-  | "ct" => do let (c, out) ← seqOp s.ct op a "t"; pure ({ s with ct := c }, out)
-  | _ => none
+  -- Steel program (named and live / let-bound last use / temporary)
+  let parts := op0.splitOn "_"
+  let op := parts.headD op0
+  let own := (parts.drop 1).headD ""
+  let ops ← collOps reg op own a
+  let step := fun (acc : St × St × String) (o : Op) =>
+    let (p, t, _) := acc
+    let rp := stepP p o
+    let rs := stepS t o
+    let sp := showAns o rp.2
+    let ss := showAns o rs.2
+    (rp.1, rs.1, if sp == ss then sp else sp ++ " !refine")
+  let (p, t, out) := ops.foldl step (s.pst, s.sst, "")
+  pure ({ s with pst := p, sst := t }, out)
 
 def line (s : DState) (l : String) : DState × String :=
   let toks := (l.trimAscii.toString.splitOn " ").filter (· ≠ "")
@@ -199,8 +257,33 @@ def line (s : DState) (l : String) : DState × String :=
           let g := s.graph
           let gd := match s.guards with
             | some x => x
-            | none => s!"wf={showB (wfB g)} nonan={showB (noNaNB g)} keys={showB (keysDistinctB g)} sig={showB (listSigB g)}"
+            | none => s!"wf={showB (wfB g)} nonan={showB (noNaNB g)} keys={showB (keysDistinctB g)} members={showB (membersDistinctB g)} sig={showB (listSigB g)}"
           ({ s with guards := some gd }, s!"eq impl={showB (eqImpl s.cfg g a b)} spec={showB (eqSpec g a b)} old={showB (eqImpl Cfg.legacy g a b)} {gd} shared={showB (!noSharingB g a b)}")
+      | _, _ => (s, "bad name")
+  | "mk" :: name :: kind :: args =>
+      -- the model constructor over the graph as it was BEFORE the node was defined, against the members the
+      -- real object has (order irrelevant)
+      match lookupName s name, lookupAllNames s args with
+      | some i, some ids =>
+          let g0 := s.graph.take i
+          let cn := canonId s.graph
+          let sortN := fun (xs : List Nat) => (xs.map fun (k : Nat) => ((cn k : Int), (0 : Int))).foldr insertSorted []
+          let same := match kind, s.graph.node i with
+            | "set", .set xs =>
+                (match mkSet s.cfg g0 ids with
+                 | .set ys => sortN xs == sortN ys
+                 | _ => false)
+            | "map", .map es =>
+                (match pairUp ids with
+                 | some kvs =>
+                     (match mkMap s.cfg g0 kvs with
+                      | .map fs =>
+                          (es.map fun (e : Nat × Nat) => ((cn e.1 : Int), (cn e.2 : Int))).foldr insertSorted []
+                            == (fs.map fun (e : Nat × Nat) => ((cn e.1 : Int), (cn e.2 : Int))).foldr insertSorted []
+                      | _ => false)
+                 | none => false)
+            | _, _ => false
+          (s, s!"mk same={showB same}")
       | _, _ => (s, "bad name")
   | ["hq", a, b] =>
       match lookupName s a, lookupName s b with
